@@ -15,9 +15,9 @@ CLAIMS = {
    note='Same bounds and abstractions as C07; flags against Byzantine participants are not judged; "on-curve outside G2" vectors are drawn by coordinate corruption.'),
 
  'C10': dict(level='model_checking', design='5 C10, 4.1',
-   technique='TLC enumeration of all API call sequences of the DKG state-machine spec (DKGApi.tla), each replayed on a real instance with the prescribed result classes; metamorphic non-interference replay',
-   text='DKGApi.tla states the documented state machine (phase, timeouts taken, handler bodies of DKGNode.tla) and TLC checks its rules as invariants while enumerating every call sequence up to a length bound behind forced prefixes; every sequence is executed on a real instance of each protocol and role, the class of every call and Running() must be the prescribed ones, and the sequence with its rejected calls removed must be observationally identical; End on runs whose group key is the identity (reference dealer with a zero constant term, or cancelling the polynomial of the real participant) must fail and leave the instance not running.',
-   note='n=3, t=1, reduced alphabet of 21 calls (incl. Start with a short seed), exhaustive to length 3 (4 thorough) behind 5 forced prefixes, longer sequences sampled; reuse after End excluded as the property says.'),
+   technique='TLC enumeration of all API call sequences of the DKG state-machine spec (DKGApi.tla), each replayed on a real instance with the prescribed result classes; metamorphic non-interference replays (rejected calls removed, repeated hundreds of times, inserted at every position); TLC refinement of an abstract life cycle whose invariant is proved with TLAPS for call sequences of every length',
+   text='DKGApi.tla states the documented state machine (phase, timeouts taken, handler bodies of DKGNode.tla) and TLC checks its rules as invariants while enumerating every call sequence up to a length bound behind forced prefixes; every sequence is executed on a real instance of each protocol and role, the class of every call and Running() must be the prescribed ones, and the sequence with its rejected calls removed, with every rejected call repeated 253..258 times in place, and with refused calls inserted at every position must be observationally identical on the accepted calls; every step of the model is a step of DKGLifeAbs.tla (RefinesLife), whose invariant is inductive (DKGLifeProof.tla, TLAPS); End on runs whose group key is the identity (reference dealer with a zero constant term, or cancelling the polynomial of the real participant) must fail and leave the instance not running.',
+   note='n=3, t=1, reduced alphabet of 21 calls (incl. Start with a short seed), exhaustive to length 3 (4 thorough) behind 7 forced prefixes, longer sequences sampled; reuse after End excluded as the property says.'),
 
  'C01': dict(level='model_checking', design='5 C01, 4.5',
    technique='TLC check of the staged Verify pipeline against its definition over the symbolic pairing algebra (BLSVerify.tla) + every enumerated class concretised with reference arithmetic and executed on the real Verify/Sign',
@@ -44,13 +44,13 @@ CLAIMS = {
    text='The batching/sign logic is proved to interpolate every polynomial for all ordered subsets (n<=5/6) and structured long sequences; each sequence is run through real keygen, stateless and stateful reconstruction and compared with reference interpolation and group-key verification; all operation sequences on the object are replayed with prescribed return classes.',
    note='Field arithmetic reached only through replays; exhaustive for small n, structured beyond.'),
  'C13': dict(level='model_checking', design='5 C13, 4.4',
-   technique='TLC check of the sponge write loop invariants for every write length and of hasher stream semantics (Hasher.tla), KMAC bytepad lengths (KmacPad.tla) + histories and complete length/split sweeps replayed against independent references',
-   text='Buffer invariants hold for every length 0..2*rate+1 at the real rates; every enumerated operation history is replayed on the real hashers of its class and compared with stdlib / SP 800-185 references; all lengths 0..4*rate x all 2-splits, fresh objects, dirty ComputeHash, one-shot helpers, KMAC key/customizer/output grids incl. block-boundary keys; long simulated behaviours on one object; misuse steps on finalised sponges followed by Reset / ComputeHash.',
+   technique='TLC check of the sponge write loop invariants for every write length and of hasher stream semantics (Hasher.tla), KMAC bytepad lengths (KmacPad.tla), the write loop step by step (SpongeLoop.tla) with TLAPS proofs of its invariant and termination for every rate and of the bytepad formula for every length + histories and complete length/split sweeps replayed against independent references',
+   text='Buffer invariants hold for every length 0..2*rate+1 at the real rates; every enumerated operation history is replayed on the real hashers of its class and compared with stdlib / SP 800-185 references; all lengths 0..4*rate x all 2-splits, fresh objects, dirty ComputeHash, one-shot helpers, KMAC key/customizer/output grids incl. block-boundary keys, keys around 8192 and 2 MiB bytes and outputs of 8192 bytes (longer length headers); long simulated behaviours on one object; misuse steps on finalised sponges followed by Reset / ComputeHash.',
    note='Keccak-f itself is trusted to the reference comparison; sponge objects not written after SumHash without Reset.'),
  'C14': dict(level='model_checking', design='5 C14, 4.3',
-   technique='TLC enumeration of read / store-restore behaviours of the PRG stream machine with SameStream / RestoreResumes invariants (ChaChaPRG.tla) + replay against an independent RFC 8439 keystream',
-   text='All sequences over boundary read sizes, every store offset 0..200 (321 thorough) and crafted states around 2^32 bytes are enumerated with the prescribed keystream intervals and replayed on the real PRG with random seeds / customizers; derived UintN / permutation outputs are compared after restore; long simulated behaviours with up to four generators.',
-   note='Seeds and customizers sampled; block counter beyond 2^31 blocks not modelled.'),
+   technique='TLC enumeration of read / store-restore behaviours of the PRG stream machine with SameStream / RestoreResumes invariants (ChaChaPRG.tla), TLAPS proof of its position arithmetic for reads of every size + replay against an independent RFC 8439 keystream',
+   text='All sequences over boundary read sizes, every store offset 0..200 (321 thorough) crafted states around 2^32 bytes and inside the last blocks of the stream are enumerated with the prescribed keystream intervals and replayed on the real PRG with random seeds / customizers; derived UintN / permutation outputs are compared after restore; long simulated behaviours with up to four generators.',
+   note='Seeds and customizers sampled; reads that would run beyond the end of the 2^38-byte stream are outside the model.'),
  'C15': dict(level='model_checking', design='5 C15, 4.3',
    technique='TLC counting proof of one-attempt uniformity and Fisher-Yates bijections (Sampling.tla) + the real helpers run on every one-attempt tape through the hook random.NewVerifRand with preimage counting',
    text='Exact uniformity is a counting statement checked by TLC for n<=64 (256 thorough) and measured on the real UintN for every n<=4096 (65536 thorough) over all chunks; permutations/samples: every draw sequence for populations <=5 (7) compared with the model outcome; algorithm-agnostic exact counting of outcomes over the trie of source bytes (depth 2 / 3) and a validity grid over (n, m) up to n = 4096.',
